@@ -327,7 +327,65 @@ fn has_children(re: &Re) -> bool {
     )
 }
 
+/// Valued forms of SUPPORTED class names, to be rejected also when the supported form of the same
+/// name occurs earlier in the same scanner (the class registry is shared by all modes).
+const SHADOWED: &[(&str, &str)] = &[
+    ("\\p{Alphabetic}", "\\p{Alphabetic=No}"),
+    ("\\p{Alphabetic}", "\\p{Alphabetic=Yes}"),
+    ("\\p{Lowercase}", "\\p{Lowercase:Yes}"),
+    ("\\P{White_Space}", "\\P{White_Space=No}"),
+    ("\\p{Math}", "\\p{Math!=Yes}"),
+    ("\\p{XID_Start}", "\\p{XID_Start=True}"),
+];
+
+pub fn c15_shadowed_case(rng: &mut Rng, st: &mut Stats) -> CaseOutcome {
+    let (supported, unsupported) = SHADOWED[rng.below(SHADOWED.len())];
+    // supported first, unsupported later: same pattern, later pattern, later mode, or lookahead
+    let layout = rng.below(4);
+    let modes: Vec<scnr::ScannerMode> = match layout {
+        0 => vec![scnr::ScannerMode::new("A", vec![scnr::Pattern::new(format!("{}+x{}", supported, unsupported), 0)], Vec::<(usize, usize)>::new())],
+        1 => vec![scnr::ScannerMode::new(
+            "A",
+            vec![scnr::Pattern::new(format!("{}+", supported), 0), scnr::Pattern::new(format!("(a|{})*", unsupported), 1)],
+            Vec::<(usize, usize)>::new(),
+        )],
+        2 => vec![
+            scnr::ScannerMode::new("A", vec![scnr::Pattern::new(format!("{}+", supported), 0)], Vec::<(usize, usize)>::new()),
+            scnr::ScannerMode::new("B", vec![scnr::Pattern::new("b".into(), 0), scnr::Pattern::new(unsupported.to_string(), 1)], Vec::<(usize, usize)>::new()),
+        ],
+        _ => vec![scnr::ScannerMode::new(
+            "A",
+            vec![
+                scnr::Pattern::new(format!("{}+", supported), 0),
+                scnr::Pattern::new("a".into(), 1).with_lookahead(scnr::Lookahead::new(rng.chance(1, 2), unsupported.to_string())),
+            ],
+            Vec::<(usize, usize)>::new(),
+        )],
+    };
+    st.count("planted_valued_class_after_supported_class_of_same_name");
+    let case = json!({"kind": "c15", "supported": supported, "unsupported": unsupported, "layout": layout, "modes": modes});
+    match build_both(&modes) {
+        Err(pm) => CaseOutcome::Violated(Violation::new(pm, case)),
+        Ok((u, c, _)) => {
+            if u || c {
+                return CaseOutcome::Violated(Violation::new(
+                    format!(
+                        "the valued Unicode class {} builds when the supported class {} occurs earlier in the same scanner (layout {}; build_uncached ok: {}, build ok: {})",
+                        unsupported, supported, layout, u, c
+                    ),
+                    case,
+                ));
+            }
+            st.nontrivial(hash_of(&(supported, unsupported, layout)));
+            CaseOutcome::Ok
+        }
+    }
+}
+
 pub fn c15_planted_case(rng: &mut Rng, _i: u64, st: &mut Stats) -> CaseOutcome {
+    if rng.chance(1, 12) {
+        return c15_shadowed_case(rng, st);
+    }
     let mut p = GenParams::default();
     p.allow_empty_alt = false;
     let base = gen_re(rng, &p);
@@ -461,6 +519,7 @@ pub fn c15(tier: Tier) -> i32 {
     .floor("supported_builds", 10_000)
     .floor("placed_in_lookahead", 5_000)
     .floor("placed_in_non_first_mode", 5_000)
+    .floor("planted_valued_class_after_supported_class_of_same_name", 500)
     .assume("repetition counts are bounded (product <= 4096): unbounded counts are resource exhaustion, not a panic")
     .assume("regex-syntax decides what a syntax error is");
     for cat in ["anchor", "word_boundary", "flags", "non_greedy", "look_around", "unicode_class", "syntax_error"] {
